@@ -11,7 +11,7 @@ def prop( pid, rules, decides, not_decided, technique, thorough_rules=(), assump
                        assumptions=list( assumptions ))
 
 
-prop( 'C05', [ 'S-STATUS', 'D-VALIDATE', 'W-ATTR', 'T-ALLOWED', 'T-TYPENAMES', 'K-KEYPASS', 'G-INIT', 'D-PATHSTOP', 'L-TEXTCODEC', 'D-UNPACKFMT', 'T-TYPEDLOOP', 'D-OWNPATH', 'T-SYMBOL', 'W-PRINT', 'F-FRAG', 'F-STATUS', 'D-NOSUCH', 'W-ASSERT', 'S-PHASE', 'T-BOOL' ],
+prop( 'C05', [ 'S-STATUS', 'D-VALIDATE', 'W-ATTR', 'T-ALLOWED', 'T-TYPENAMES', 'K-KEYPASS', 'G-INIT', 'D-PATHSTOP', 'L-TEXTCODEC', 'D-UNPACKFMT', 'T-TYPEDLOOP', 'D-OWNPATH', 'T-SYMBOL', 'W-PRINT', 'F-FRAG', 'F-STATUS', 'D-NOSUCH', 'W-ASSERT', 'S-PHASE', 'T-BOOL', 'L-STRLEN' ],
       decides='T-SYMBOL: the canonical form of a tag name is its lower-case spelling ( no case folding that maps distinct ISO-8859-1 names onto one symbol ), so a request naming an unknown tag cannot resolve to a configured one.  T-TYPEDLOOP as for C01.  D-VALIDATE also: the WHOLE requested extent ( path index + elements ) is asserted to lie inside the tag for reads and writes alike, ahead of any fragment being served or stored.  D-OWNPATH: in Object.request and Logix.request every access to the handler\'s own attributes is dominated by the assertion that the request path names this object (class and instance of resolve( data.path )): a request for an unknown object is refused, never served from or stored into the attribute of the same number.  L-TEXTCODEC: per codec class the producer encodes text with the character set its parser decodes with (an accepted STRING / SSTRING write stays readable and reads back equal).  D-UNPACKFMT: Set Attribute Single converts EVERY received element with the Attribute\'s own struct format (on every path to the store), so the stored values are in the tag type\'s range and the tag stays readable.  D-PATHSTOP (unknown-tag clause): device.resolve never skips a SYMBOLIC path segment - its skip test is false on every symbolic cell of the decision table and skipping is per segment ( continue, not break ), so a name behind a resolved tag ( A.foo, A[1].foo ) is resolved or refused, not served from A.  S-STATUS: typestate of data.status over the statement CFG of every CIP request handler - at every statement inside '
               'the try that may raise, the status is a known non-success constant (so a refused request is answered with a failure), '
               'the handler never re-raises or resets it, and at the named program points of Logix.request the codes are 0x05 (resolve/lookup), '
@@ -61,7 +61,7 @@ prop( 'C20', [ 'T-TNET', 'P-CHAIN', 'G-CHUNK', 'G-REF', 'P-SEPARATORS' ],
       not_decided='value round trip for all values, nesting depth; chunking beyond the separator / chain-unmodified / chunk-transparent-grammar clauses (dynamic).',
       technique='encoder/decoder idiom classification over dispatch chains (AST pattern matching); grammar extraction' )
 
-prop( 'C03', [ 'W-ATTR', 'D-VALIDATE', 'R-SNAPSHOT', 'D-TYPE', 'T-TYPENAMES', 'T-ATTRKEYS', 'T-SYMBOL', 'D-PATHSTOP', 'K-KEYPASS', 'T-RETAG', 'T-TAGLOOP', 'D-OWNPATH', 'D-UNPACKFMT', 'F-FRAG', 'P-ROUTEFIRST', 'F-STATUS', 'W-ASSERT', 'S-PHASE', 'T-BOOL' ],
+prop( 'C03', [ 'W-ATTR', 'D-VALIDATE', 'R-SNAPSHOT', 'D-TYPE', 'T-TYPENAMES', 'T-ATTRKEYS', 'T-SYMBOL', 'D-PATHSTOP', 'K-KEYPASS', 'T-RETAG', 'T-TAGLOOP', 'D-OWNPATH', 'D-UNPACKFMT', 'F-FRAG', 'P-ROUTEFIRST', 'F-STATUS', 'W-ASSERT', 'S-PHASE', 'T-BOOL', 'L-STRLEN' ],
       decides='T-TAGLOOP: main()\'s per-tag configuration loop reads no local on a path of the iteration that has not assigned it (no address / attribute carried over from the previous tag argument).  T-RETAG: setup_tag stores the CONFIGURED Attribute into the instance\'s attribute table at both sites (creation, replacement of an existing tag) - a replacement that stores the existing Attribute back keeps serving the array of an earlier configuration.  storage-discipline clauses only.  W-ATTR: tags are mutated only by statements reachable for the write services '
               '(Write Tag, Write Tag Fragmented, Set Attribute Single) - no read service and no refused request changes a tag; '
               'D-VALIDATE: the tag store is dominated by type and range validation, the stored slice is the validated (beg,end), the write-capacity '
